@@ -1954,7 +1954,14 @@ pub fn decompress_with_limit(
             }),
 
             WriteLenBytesToEnd => generate_state!(state, 'state_machine, {
-                if out_buf.bytes_left() > 0 {
+                if (l.dist as usize > out_buf.position() &&
+                    (flags & TINFL_FLAG_USING_NON_WRAPPING_OUTPUT_BUF != 0)) || (l.dist as usize > out_buf.get_ref().len())
+                {
+                    // The match was validated against the buffer of an earlier call; if the
+                    // caller resumes with a different buffer or position the source may now lie
+                    // before the start of the data, so check again rather than index out of range.
+                    Action::Jump(DistanceOutOfBounds)
+                } else if out_buf.bytes_left() > 0 {
                     let out_pos = out_buf.position();
                     let source_pos = out_buf.position()
                         .wrapping_sub(l.dist as usize) & out_buf_size_mask;
